@@ -67,7 +67,9 @@ def _hilbert_transform_with_padding(y, padding: str = "exp", decay_factor: float
 
     # Padding can introduce a shift in the mean of the imaginary part
     # of the Hilbert transform. Correct for this shift.
-    y = y - y.mean(axis=0)  # type: ignore
+    # NOTE: only the imaginary part; the real part is the input itself, whose mean
+    # is the business of the `center` option
+    y = y - 1j * y.imag.mean(axis=0)  # type: ignore
 
     return y
 
